@@ -61,7 +61,7 @@ structure WaitSem (cx : Cx) (fuel : Nat) (sL : Nat) (w : List (Option BP)) (hs d
   dsome : hasNone w = true → ∃ o, d1 = [.ljump ⟨o, Gen.op_jump, []⟩ (some sL)]
   dnone : hasNone w = false → d1 = dIn
   sem : ∀ (envC : Src.Env), envC.subst = [] → ∀ (k nt : Nat) (SC0 : Src.Cases) (b : Src.B),
-    Grow cx.Z (Src.trCases fuel [] envC SC0 k nt b).1 (Src.trCases fuel [] envC (wSrc w SC0) k nt b).1 ∧
+    Pushes (Src.trCases fuel [] envC SC0 k nt b).1 (Src.trCases fuel [] envC (wSrc w SC0) k nt b).1 ∧
     (Src.trCases fuel [] envC (wSrc w SC0) k nt b).2.1 = (Src.trCases fuel [] envC SC0 k nt b).2.1 ∧
     (Src.trCases fuel [] envC (wSrc w SC0) k nt b).2.2.2 =
       (if hasNone w then some (Src.trCases fuel [] envC SC0 k nt b).2.1 else (Src.trCases fuel [] envC SC0 k nt b).2.2.2) ∧
@@ -81,7 +81,7 @@ theorem waiting_sem (cx : Cx) (fuel : Nat) (sL : Nat) : ∀ (w : List (Option BP
     obtain ⟨⟨rfl, rfl⟩, rfl⟩ := h
     refine ⟨SameStk.refl _, fun x hx => by simp at hx, fun h => by simp [hasNone] at h, fun _ => rfl, ?_⟩
     intro envC _ k nt SC0 b
-    refine ⟨Grow.refl _, rfl, rfl, fun r pH _ _ m j _ h => ?_⟩
+    refine ⟨Pushes.refl _, rfl, rfl, fun r pH _ _ m j _ h => ?_⟩
     simpa [wSrc] using h
   | cons x w ih =>
     intro dops s hs dops' s' hw h
@@ -115,7 +115,7 @@ theorem waiting_sem (cx : Cx) (fuel : Nat) (sL : Nat) : ∀ (w : List (Option BP
       obtain ⟨g, eb, ed, c⟩ := ws.sem envC he k nt SC0 b
       have htr := trCases_case fuel envC he ⟨bp.name, convParams bp.params⟩ .nil (wSrc w SC0) k nt b rfl (trStmts_nil fuel envC _ _)
       simp only [wSrc, htr, hasNone]
-      refine ⟨g.trans (Grow.push _ _), eb, ed, fun r pH hp hag m j hT hrest => ?_⟩
+      refine ⟨g.trans (Pushes.push _ _), eb, ed, fun r pH hp hag m j hT hrest => ?_⟩
       have hit : itemAt cx.rs ⟨r, pH⟩ = some (.ljump ⟨n, bp.name, bp.params⟩ (some sL)) := by simpa using hp.item (d := 0) rfl
       have hstep := lab_test hit (isTest_not_jump _ htest) htest
       have hpR : Placed cx.rs r (pH + 1) hs0 := by
